@@ -346,6 +346,17 @@ fn deep_own(y: &Yaml) -> Yaml<'static> {
 
 fn deep_text(shape: &str, depth: usize) -> String {
     let mut s = String::new();
+    if let Some(rest) = shape.strip_prefix("rep:") {
+        // `rep:<unit hex>:<tail hex>`: the unit repeated `depth` times, then the tail
+        let mut it = rest.split(':');
+        let unit = crate::unhex(it.next().unwrap_or(""));
+        let tail = crate::unhex(it.next().unwrap_or(""));
+        for _ in 0..depth {
+            s.push_str(&unit);
+        }
+        s.push_str(&tail);
+        return s;
+    }
     match shape {
         "seq" => {
             for _ in 0..depth {
